@@ -72,12 +72,19 @@ impl RigCfg {
     }
 }
 
-pub const BAUDS: [profirust::Baudrate; 5] = [
+/// same order as w2::BAUDS (new entries appended: indices in replay files stay valid)
+pub const BAUDS: [profirust::Baudrate; 11] = [
     profirust::Baudrate::B9600,
     profirust::Baudrate::B19200,
     profirust::Baudrate::B500000,
     profirust::Baudrate::B1500000,
     profirust::Baudrate::B12000000,
+    profirust::Baudrate::B31250,
+    profirust::Baudrate::B45450,
+    profirust::Baudrate::B93750,
+    profirust::Baudrate::B187500,
+    profirust::Baudrate::B3000000,
+    profirust::Baudrate::B6000000,
 ];
 
 pub fn build_params(cfg: &RigCfg) -> profirust::fdl::Parameters {
